@@ -29,6 +29,8 @@
 # define BOX_OPEN_EASY crypto_box_open_easy
 # define BOX_OPEN_EASY_AFTERNM crypto_box_open_easy_afternm
 # define BOX_OPEN_DETACHED crypto_box_open_detached
+# define BOX_DETACHED_AFTERNM crypto_box_detached_afternm
+# define BOX_OPEN_DETACHED_AFTERNM crypto_box_open_detached_afternm
 # define BOX_SEAL crypto_box_seal
 # define BOX_SEAL_OPEN crypto_box_seal_open
 # define BOX_KEYPAIR crypto_box_keypair
@@ -40,6 +42,8 @@
 # define BOX_OPEN_EASY crypto_box_curve25519xchacha20poly1305_open_easy
 # define BOX_OPEN_EASY_AFTERNM crypto_box_curve25519xchacha20poly1305_open_easy_afternm
 # define BOX_OPEN_DETACHED crypto_box_curve25519xchacha20poly1305_open_detached
+# define BOX_DETACHED_AFTERNM crypto_box_curve25519xchacha20poly1305_detached_afternm
+# define BOX_OPEN_DETACHED_AFTERNM crypto_box_curve25519xchacha20poly1305_open_detached_afternm
 # define BOX_SEAL crypto_box_curve25519xchacha20poly1305_seal
 # define BOX_SEAL_OPEN crypto_box_curve25519xchacha20poly1305_seal_open
 # define BOX_KEYPAIR crypto_box_curve25519xchacha20poly1305_keypair
@@ -93,12 +97,16 @@ VERIF_MAIN
 #if PART == 1
         CHECK(BOX_EASY_AFTERNM(c2, in.m, MLEN, in.n, k1) == 0 && v_eq(c2, c1, MLEN + 16), "afternm o beforenm = direct form");
         CHECK(BOX_DETACHED(cd, macd, in.m, MLEN, in.n, pk_b, in.sk_a) == 0 && v_eq(cd, c1 + 16, MLEN) && v_eq(macd, c1, 16), "detached form = easy form");
+        memset(cd, 0, sizeof cd); memset(macd, 0, sizeof macd);
+        CHECK(BOX_DETACHED_AFTERNM(cd, macd, in.m, MLEN, in.n, k1) == 0 && v_eq(cd, c1 + 16, MLEN) && v_eq(macd, c1, 16), "detached_afternm form = easy form");
 #elif PART == 2
         /* recipient side */
         CHECK(BOX_OPEN_EASY(m2, c1, MLEN + 16, in.n, pk_a, in.sk_b) == 0, "recipient opens the box (shared secrets agree)");
         CHECK(v_eq(m2, in.m, MLEN), "open_easy(box_easy(m)) = m");
         CHECK(BOX_OPEN_DETACHED(m3, c1 + 16, c1, MLEN, in.n, pk_a, in.sk_b) == 0 && v_eq(m3, in.m, MLEN), "open_detached round trip");
         CHECK(BOX_OPEN_EASY_AFTERNM(m3, c1, MLEN + 16, in.n, k1) == 0 && v_eq(m3, in.m, MLEN), "open_easy_afternm round trip");
+        memset(m3, 0, sizeof m3);
+        CHECK(BOX_OPEN_DETACHED_AFTERNM(m3, c1 + 16, c1, MLEN, in.n, k1) == 0 && v_eq(m3, in.m, MLEN), "open_detached_afternm round trip");
 #elif PART == 3 && SBVAR == 0
         {
             uint8_t mp[MLEN + 32], cp[MLEN + 32], mq[MLEN + 32];
@@ -107,6 +115,11 @@ VERIF_MAIN
             CHECK(crypto_box(cp, mp, MLEN + 32, in.n, pk_b, in.sk_a) == 0, "NaCl crypto_box returns 0");
             CHECK(v_eq(cp + 16, c1, MLEN + 16), "NaCl zero-padded box = easy form");
             CHECK(crypto_box_open(mq, cp, MLEN + 32, in.n, pk_a, in.sk_b) == 0 && v_eq(mq, mp, MLEN + 32), "NaCl box_open round trip");
+            {
+                uint8_t cp2[MLEN + 32], mq2[MLEN + 32];
+                CHECK(crypto_box_afternm(cp2, mp, MLEN + 32, in.n, k1) == 0 && v_eq(cp2, cp, MLEN + 32), "NaCl crypto_box_afternm = crypto_box");
+                CHECK(crypto_box_open_afternm(mq2, cp, MLEN + 32, in.n, k1) == 0 && v_eq(mq2, mp, MLEN + 32), "NaCl box_open_afternm round trip");
+            }
         }
 #endif
     }
